@@ -36,6 +36,7 @@ RULE = (
     "model counts; every event node position lies in a layout box of the same kind; loss markers match loss branches one-to-one on the trunk edge of "
     "their species; the multiset of arrow end points == anchors of the transferred children in their own species.  Non-trivial: >=1 full loss and "
     ">=2 event kinds; distinct by SHA-1 of the case."
+    '  Also: one drawing in six with integer sizes, measured boxes split into height above and depth below the baseline, unordered syntenies as sets in half of the drawings, up to 10 families, a third of the labelled drawings with leaf names without underscore, a third of the cases drawn after another mapping of the same input and the other orientation (history); one random case in six is written to a file (Newick with branch lengths) and drawn with `superrec2 draw ... tikz` in both orientations.'
 )
 ASSUMPTIONS = ["valid reconciliations only", "object leaf names contain an underscore when no labelling is drawn (renderer's documented naming convention)"]
 BUDGET = {"quick": {"random": 5000}, "thorough": {"random": 60000}}
